@@ -8,7 +8,6 @@ import (
 	"math"
 	"os"
 	"path/filepath"
-	"sync"
 	"time"
 
 	logging "github.com/ipfs/go-log/v2"
@@ -35,12 +34,12 @@ type Store struct {
 	fileCache *filecache.FileCache
 	freelist  *freelist.FreeList
 
-	stateLk sync.RWMutex
+	stateLk verifhook.RWMutex
 	open    bool
 	running bool
 	err     error
 
-	rateLk      sync.RWMutex
+	rateLk      verifhook.RWMutex
 	flushRate   float64 // rate at which data can be flushed
 	burstRate   types.Work
 	lastFlush   time.Time
